@@ -274,6 +274,9 @@ func genMode(r *Rng) string {
 
 func genPutStmt(r *Rng, allowFail bool) HistStmt {
 	n := pick(r, []int{1, 1, 2, 3, 4, 6})
+	if r.Chance(0.08) {
+		n = r.Range(7, 45) // longer than any batch size / small-slice special case
+	}
 	h := HistStmt{Kind: "put", Mode: genMode(r), Extra: genPollPattern(r)}
 	for i := 0; i < n; i++ {
 		h.Pairs = append(h.Pairs, genHistPair(r, true))
@@ -301,6 +304,9 @@ func genPutStmt(r *Rng, allowFail bool) HistStmt {
 
 func genRemoveStmt(r *Rng, model map[string]string, allowFail bool) HistStmt {
 	n := pick(r, []int{1, 1, 2, 3, 6})
+	if r.Chance(0.06) {
+		n = r.Range(7, 40)
+	}
 	h := HistStmt{Kind: "remove", Mode: genMode(r), Extra: genPollPattern(r)}
 	present := sortedKeys(model)
 	for i := 0; i < n; i++ {
